@@ -73,8 +73,8 @@ func Generate(prop string, r *sim.Rand, tier string) *sim.Plan {
 	if tier == "thorough" {
 		n = r.Range(5, 160)
 	}
-	ops := []string{"submit", "gen", "commit", "seq", "tick", "rebroadcast", "evict", "restart"}
-	w := []int{20, 8, 10, 1, 4, 2, 3, 1}
+	ops := []string{"submit", "gen", "commit", "seq", "tick", "rebroadcast", "evict", "restart", "racequery"}
+	w := []int{20, 8, 10, 1, 4, 2, 3, 1, 2}
 	for i := range w {
 		if i > 2 && r.Chance(0.3) {
 			w[i] = 0
@@ -118,6 +118,8 @@ func Generate(prop string, r *sim.Rand, tier string) *sim.Plan {
 			}
 		case "tick", "rebroadcast", "evict":
 			s.D = []int{1, 10, 100, 1000, 5000}[r.Intn(5)]
+		case "racequery":
+			s.K, s.D = r.Intn(cfg.Accounts), r.Intn(3)
 		}
 		p.Steps = append(p.Steps, sim.MustJSON(s))
 	}
@@ -190,11 +192,19 @@ type runner struct {
 	cfg  PConfig
 	m    *pmodel
 	pool mempool.MemPool
-	step int
+	// concurrent API query parked inside the ledger lookup (race.go)
+	park      chan struct{}
+	queryDone chan struct{}
+	parkAcct  int
+	parkHold  int
+	parkedIn  bool
+	parkInner mempool.MemPool
+	step      int
 }
 
 func (r *runner) newPool() {
-	r.pool = mempool.NewMemPool(&mempool.Config{
+	r.releaseQuery()
+	inner := mempool.NewMemPool(&mempool.Config{
 		ID: 1, BatchSize: uint64(r.cfg.BatchSize), PoolSize: uint64(r.cfg.PoolSize), IsTimed: r.cfg.Timed,
 		ChainHeight: r.m.committedH, Logger: quietLogger,
 		GetAccountNonce: func(address *types.Address) uint64 {
@@ -202,9 +212,20 @@ func (r *runner) newPool() {
 			if i < 0 || i >= len(r.m.ledgerNonce) {
 				return 0
 			}
-			return r.m.ledgerNonce[i]
+			v := r.m.ledgerNonce[i]
+			if r.park != nil && i == r.parkAcct && !r.parkedIn && r.parkInner != nil && !mempool.VerifNonceLocksFree(r.parkInner) {
+				r.res.Count("probe_concurrent_query_not_interleavable_pool_holds_its_locks_across_the_ledger_lookup")
+			}
+			if ch := r.park; ch != nil && i == r.parkAcct && !r.parkedIn && r.parkInner != nil && mempool.VerifNonceLocksFree(r.parkInner) {
+				// the concurrent query has read the ledger and is descheduled before it uses the value
+				r.parkedIn = true
+				<-ch
+			}
+			return v
 		},
 	})
+	r.pool = &guardedPool{r: r, inner: inner}
+	r.parkInner = inner
 	r.m.lastHeight = r.m.committedH
 }
 
@@ -426,7 +447,16 @@ func execInBubble(prop string, p *sim.Plan, res *sim.Result) {
 		}
 		r.step = i
 		res.Steps++
+		if r.park != nil {
+			if r.parkHold <= 0 {
+				r.releaseQuery()
+			}
+			r.parkHold--
+		}
 		switch s.Op {
+		case "racequery":
+			r.startQuery(s.K%cfg.Accounts, 1+s.D%3)
+			res.Log.Logf("%d concurrent pending-nonce query for A%d parked=%v", i, s.K%cfg.Accounts, r.park != nil)
 		case "submit":
 			var txs []pb.Transaction
 			var adm []*mtx
@@ -670,7 +700,9 @@ func execInBubble(prop string, p *sim.Plan, res *sim.Result) {
 			res.Count("fault_pool_restart")
 			res.Log.Logf("%d restart at height %d", i, m.committedH)
 		}
-		r.invariants()
+		if r.park == nil {
+			r.invariants()
+		}
 		if len(res.Violations) > 0 {
 			break
 		}
@@ -686,6 +718,10 @@ func execInBubble(prop string, p *sim.Plan, res *sim.Result) {
 			}
 			res.State(min(held, 3), min(batched, 3), r.modelPending(a) > m.ledgerNonce[a], r.pool.HasPendingRequest(), m.foreignHit[a])
 		}
+	}
+	r.releaseQuery()
+	if len(res.Violations) == 0 {
+		r.invariants()
 	}
 	if len(res.Violations) == 0 && prop == "C19" {
 		r.drain()
